@@ -159,14 +159,43 @@ def apply(tops, op, tmp):
         else:
             tops.append(pickle.loads(pickle.dumps(t, 2 if how == "p2" else pickle.HIGHEST_PROTOCOL)))
     elif k == "df":
+        first = op[2] if len(op) > 2 else None
+        if first is not None:            # frames of another topology go through from_dataframe first,
+            a0, b0 = tops[first].to_dataframe()      # then the frames of t are used twice
+            md.Topology.from_dataframe(a0, b0)
         atoms, bonds = t.to_dataframe()
-        tops.append(md.Topology.from_dataframe(atoms, bonds))
+        new = md.Topology.from_dataframe(atoms, bonds)
+        if first is not None:
+            new = md.Topology.from_dataframe(atoms, bonds)
+        tops.append(new)
     elif k == "h5":
+        from mdtraj.formats import HDF5TrajectoryFile
         fn = os.path.join(tmp, "t.h5")
-        traj_of(t).save_hdf5(fn)
-        tops.append(md.load(fn).topology)
+        if os.path.exists(fn):
+            os.unlink(fn)
+        first = op[2] if len(op) > 2 else None
+        mode = op[3] if len(op) > 3 else "w"
+        if first is None:
+            traj_of(t).save_hdf5(fn)
+            tops.append(md.load(fn).topology)
+        elif mode == "setter":           # low-level: the topology attribute is stored twice, no frames
+            with HDF5TrajectoryFile(fn, "w") as f:
+                f.topology = tops[first]
+            with HDF5TrajectoryFile(fn, "a") as f:
+                f.topology = t
+            with HDF5TrajectoryFile(fn, "r") as f:
+                tops.append(f.topology)
+        else:                            # the file already holds another topology: the LAST one stored must come back
+            traj_of(tops[first]).save_hdf5(fn)
+            traj_of(t).save_hdf5(fn, mode=mode)
+            tops.append(md.load(fn).topology)
     elif k == "pdb":
         fn = os.path.join(tmp, "t.pdb")
+        first = op[3] if len(op) > 3 else None
+        if first is not None:            # the path already holds another topology
+            tr0 = traj_of(tops[first])
+            tr0.xyz[0, :, 0] = np.arange(tops[first].n_atoms) * 1.0
+            tr0.save_pdb(fn, ter=bool(op[2]))
         tr = traj_of(t)
         tr.xyz[0, :, 0] = np.arange(t.n_atoms) * 1.0     # 1 nm apart: the reader's distance-based disulfide
         tr.save_pdb(fn, ter=bool(op[2]))                  # detection (not modelled) finds nothing
@@ -266,12 +295,29 @@ def concretise(tops, op):
         if how == "traj" and t.n_atoms < 1:
             how = "phigh"
         return ["pickle", s, how]
+    def other(frac, need_same_natoms, ok=lambda u: True):
+        """slot of the topology stored first (None: plain round trip); prefers a different slot"""
+        if frac is None:
+            return None
+        cand = [i for i, u in enumerate(tops) if u.n_atoms >= 1 and ok(u) and (not need_same_natoms or u.n_atoms == t.n_atoms)]
+        if not cand:
+            return None
+        pref = [i for i in cand if i != s] or cand
+        return pref[pick(frac, len(pref))]
     if k == "df":
-        return ["df", s] if t.n_atoms >= 1 else None
+        if t.n_atoms < 1:
+            return None
+        return ["df", s, other(op[2] if len(op) > 2 else None, False)]
     if k == "h5":
-        return ["h5", s] if t.n_atoms >= 1 else None
+        if t.n_atoms < 1:
+            return None
+        mode = op[3] if len(op) > 3 else "w"
+        first = other(op[2] if len(op) > 2 else None, mode == "a")
+        return ["h5", s, first, mode]
     if k == "pdb":
-        return ["pdb", s, bool(op[2])] if pdb_ok(t) else None
+        if not pdb_ok(t):
+            return None
+        return ["pdb", s, bool(op[2]), other(op[3] if len(op) > 3 else None, False, pdb_ok)]
     if k == "add_chain":
         return ["add_chain", s, op[2]]
     if k == "add_residue":
